@@ -593,3 +593,173 @@ Proof.
     eapply spw_decide_incl; [exact Hincl|exact Hok].
   - pose proof (remove_idx_lower_length V p). lia.
 Qed.
+
+(* ---------------------------------------------------------------------------------------------- *)
+(* 7. invariance under reordering of the stored orders (reused by C15)                             *)
+
+Lemma alt_del_ok_reorder alts p p' D : Permutation p p' -> alt_del_ok alts p D = alt_del_ok alts p' D.
+Proof.
+  intros Hp. unfold alt_del_ok. apply spw_decide_reorder. unfold delete_alts. now apply Permutation_map.
+Qed.
+
+Theorem min_alt_del_reorder alts p p' : Permutation p p' -> min_alt_del alts p = min_alt_del alts p'.
+Proof.
+  intros Hp. unfold min_alt_del. apply least_ext. intros k _. unfold alt_del_k.
+  apply existsb_ext. intros D. now apply alt_del_ok_reorder.
+Qed.
+
+Lemma sublist_perm {T} (p p' q : list T) : Permutation p p' -> sublist q p ->
+  exists q', sublist q' p' /\ Permutation q q'.
+Proof.
+  intros Hp. revert q. induction Hp as [|x l l' _ IH|x y l|l l' l'' _ IH1 _ IH2]; intros q Hq.
+  - exists q. split; [assumption|apply Permutation_refl].
+  - inversion Hq; subst.
+    + exists []. split; [apply sl_nil|apply Permutation_refl].
+    + destruct (IH q H1) as (q' & H1' & H2'). exists q'. split; [now apply sl_skip|assumption].
+    + destruct (IH s H1) as (q' & H1' & H2'). exists (x :: q'). split; [now apply sl_take|now constructor].
+  - inversion Hq; subst.
+    + exists []. split; [apply sl_nil|apply Permutation_refl].
+    + inversion H1; subst.
+      * exists []. split; [apply sl_nil|apply Permutation_refl].
+      * exists q. split; [apply sl_skip; now apply sl_skip|apply Permutation_refl].
+      * exists (x :: s). split; [apply sl_take; now apply sl_skip|apply Permutation_refl].
+    + inversion H1; subst.
+      * exists [y]. split; [apply sl_skip; apply sl_take; apply sl_nil|apply Permutation_refl].
+      * exists (y :: s). split; [apply sl_skip; now apply sl_take|apply Permutation_refl].
+      * exists (x :: y :: s0). split; [apply sl_take; now apply sl_take|apply perm_swap].
+  - destruct (IH1 q Hq) as (q1 & H1 & H2). destruct (IH2 q1 H1) as (q2 & H3 & H4).
+    exists q2. split; [assumption|eapply perm_trans; eauto].
+Qed.
+
+Lemma min_vot_del_reorder_le alts p p' : Permutation p p' -> min_vot_del alts p' <= min_vot_del alts p.
+Proof.
+  intros Hp. destruct (min_vot_del_witness alts p) as (V & _ & <- & Hok).
+  destruct (sublist_perm p p' (remove_idx V p) Hp (remove_idx_sublist V p)) as (q' & Hq' & Hperm).
+  destruct (sublist_as_remove_idx q' p' Hq' 0) as (V' & E & HlV' & _).
+  apply Nat.le_trans with (length V').
+  - apply vot_del_bound. unfold vot_del_ok, remove_idx in *. rewrite E.
+    rewrite <- (spw_decide_reorder alts _ _ Hperm). exact Hok.
+  - pose proof (remove_idx_lower_length V p) as H1.
+    apply Permutation_length in Hp. apply Permutation_length in Hperm. lia.
+Qed.
+
+Theorem min_vot_del_reorder alts p p' : Permutation p p' -> min_vot_del alts p = min_vot_del alts p'.
+Proof.
+  intros Hp. apply Nat.le_antisymm.
+  - apply min_vot_del_reorder_le. now apply Permutation_sym.
+  - now apply min_vot_del_reorder_le.
+Qed.
+
+(* the order in which alternatives_name lists the alternatives does not matter *)
+Lemma keepN_perm D l l' : Permutation l l' -> Permutation (keepN D l) (keepN D l').
+Proof. apply Permutation_filter. Qed.
+
+Theorem min_vot_del_alts_perm alts alts' p : Permutation alts alts' ->
+  min_vot_del alts p = min_vot_del alts' p.
+Proof.
+  intros Hp. unfold min_vot_del. apply least_ext. intros k _. unfold vot_del_k.
+  apply existsb_ext. intros V. unfold vot_del_ok. now apply spw_decide_alts_perm.
+Qed.
+
+(* ---------------------------------------------------------------------------------------------- *)
+(* 8. invariance under injective relabelling of the alternatives (reused by C15)                   *)
+
+Section Relabel.
+Variable f : N -> N.
+Hypothesis f_inj : forall x y, f x = f y -> x = y.
+
+Lemma keepN_map D l : keepN (map f D) (map f l) = map f (keepN D l).
+Proof.
+  unfold keepN. induction l as [|a l IH]; [reflexivity|]. simpl.
+  rewrite (memN_map f f_inj). destruct (memN a D); simpl; now rewrite IH.
+Qed.
+
+Lemma delete_order_map D o : delete_order (map f D) (map_order f o) = map_order f (delete_order D o).
+Proof.
+  unfold delete_order, map_order. induction o as [|c r IH]; [reflexivity|]. simpl.
+  rewrite keepN_map. destruct (keepN D c); simpl; now rewrite IH.
+Qed.
+
+Lemma delete_alts_map D p :
+  delete_alts (map f D) (map (map_order f) p) = map (map_order f) (delete_alts D p).
+Proof.
+  unfold delete_alts. rewrite !map_map. apply map_ext. intros o. apply delete_order_map.
+Qed.
+
+Lemma alt_del_ok_relabel alts p D :
+  alt_del_ok (map f alts) (map (map_order f) p) (map f D) = alt_del_ok alts p D.
+Proof.
+  unfold alt_del_ok. rewrite keepN_map, delete_alts_map. now apply spw_decide_relabel.
+Qed.
+
+Theorem min_alt_del_relabel alts p :
+  min_alt_del (map f alts) (map (map_order f) p) = min_alt_del alts p.
+Proof.
+  unfold min_alt_del. rewrite map_length. apply least_ext. intros k _. unfold alt_del_k.
+  rewrite subsets_k_map, existsb_map. apply existsb_ext. intros D. apply alt_del_ok_relabel.
+Qed.
+
+Lemma vot_del_ok_relabel alts p V :
+  vot_del_ok (map f alts) (map (map_order f) p) V = vot_del_ok alts p V.
+Proof.
+  unfold vot_del_ok, remove_idx. rewrite remove_idx_from_map. now apply spw_decide_relabel.
+Qed.
+
+Theorem min_vot_del_relabel alts p :
+  min_vot_del (map f alts) (map (map_order f) p) = min_vot_del alts p.
+Proof.
+  unfold min_vot_del. rewrite map_length. apply least_ext. intros k _. unfold vot_del_k.
+  rewrite map_length. apply existsb_ext. intros V. apply vot_del_ok_relabel.
+Qed.
+
+(* certificates travel with the relabelling *)
+Lemma nodupN_map l : nodupN (map f l) = nodupN l.
+Proof.
+  induction l as [|a l IH]; [reflexivity|]. simpl. now rewrite (memN_map f f_inj), IH.
+Qed.
+
+Lemma valid_axis_map alts axis : valid_axis (map f alts) (map f axis) = valid_axis alts axis.
+Proof.
+  unfold valid_axis. rewrite !map_length, nodupN_map, !forallb_map. f_equal; [f_equal|].
+  - apply forallb_ext. intros a. apply (memN_map f f_inj).
+  - apply forallb_ext. intros a. apply (memN_map f f_inj).
+Qed.
+
+Theorem cert_alt_relabel alts p k axis D :
+  cert_alt (map f alts) (map (map_order f) p) k (map f axis) (map f D) = cert_alt alts p k axis D.
+Proof.
+  unfold cert_alt, spw_check_axis. rewrite nodupN_map, forallb_map, map_length, !keepN_map, delete_alts_map.
+  rewrite valid_axis_map, (sp_axis_profile_map f f_inj).
+  f_equal. f_equal. f_equal. apply forallb_ext. intros a. apply (memN_map f f_inj).
+Qed.
+
+Theorem cert_vot_relabel alts p k axis V :
+  cert_vot (map f alts) (map (map_order f) p) k (map f axis) V = cert_vot alts p k axis V.
+Proof.
+  unfold cert_vot, spw_check_axis, remove_idx.
+  rewrite map_length, remove_idx_from_map, valid_axis_map, (sp_axis_profile_map f f_inj). reflexivity.
+Qed.
+End Relabel.
+
+Lemma alt_del_ok_alts_perm alts alts' p D : Permutation alts alts' ->
+  alt_del_ok alts p D = alt_del_ok alts' p D.
+Proof. intros Hp. unfold alt_del_ok. apply spw_decide_alts_perm. now apply keepN_perm. Qed.
+
+Lemma min_alt_del_alts_perm_le alts alts' p : NoDup alts' -> Forall (complete_on alts') p ->
+  Permutation alts alts' -> min_alt_del alts' p <= min_alt_del alts p.
+Proof.
+  intros Hnd Hc Hp. destruct (min_alt_del_witness alts p) as (D & _ & <- & Hok).
+  apply alt_del_bound; [assumption|assumption|]. now rewrite <- (alt_del_ok_alts_perm alts alts' p D Hp).
+Qed.
+
+Theorem min_alt_del_alts_perm alts alts' p : NoDup alts -> Forall (complete_on alts) p ->
+  Permutation alts alts' -> min_alt_del alts p = min_alt_del alts' p.
+Proof.
+  intros Hnd Hc Hp.
+  assert (Hnd' : NoDup alts') by (eapply Permutation_NoDup; eauto).
+  assert (Hc' : Forall (complete_on alts') p).
+  { rewrite Forall_forall in *. intros o Ho. eapply complete_on_perm; [exact Hp|now apply Hc]. }
+  apply Nat.le_antisymm.
+  - apply min_alt_del_alts_perm_le; [assumption|assumption|now apply Permutation_sym].
+  - now apply min_alt_del_alts_perm_le.
+Qed.
